@@ -236,6 +236,21 @@ pub async fn listener_scenario(pki: Arc<Pki>, dict: Arc<Dictionary>, spec: Vec<S
                             keep.push(Peer::Plain(s));
                         }
                     }
+                    "garbage_close" | "hello_close" | "plain_req_close" => {
+                        // something that is no TLS handshake (and, for the first two, no Diameter either), then gone:
+                        // on a TLS listener the handshake fails, on a plain one the first frame is refused / the answer
+                        // finds nobody
+                        if let Ok(mut s) = TcpStream::connect(addr).await {
+                            let bytes: Vec<u8> = match fault.as_str() {
+                                "garbage_close" => b"GET / HTTP/1.1\r\nHost: x\r\n\r\n".to_vec(),
+                                "hello_close" => vec![0x16, 0x03, 0x01, 0x00],
+                                _ => frame(&request(&dict, 0xbad0_0100 + k as u32, 6, "faulty-plain")),
+                            };
+                            let _ = s.write_all(&bytes).await;
+                            let _ = s.shutdown().await;
+                            drop(s);
+                        }
+                    }
                     "half_hello" => {
                         // a few octets of a TLS record (or of a Diameter prefix), then silence
                         if let Ok(mut s) = TcpStream::connect(addr).await {
